@@ -745,22 +745,47 @@ def canon_bag(bag):
     return " ".join(sorted(canon_row(m) for m in bag))
 
 
-def _fresh_sig(tr, me):
-    return tuple("_" if x == me else ("F" if x[0] == "fb" else term_code(x)) for x in tr)
-
-
 def canon_graph(triples):
-    """Canonical text of a CONSTRUCT result.  Fresh blank nodes (("fb", …) tuples) are renamed in the order of their
-    signatures; exact when no triple holds two different fresh nodes (the generator guarantees it)."""
+    """Canonical text of a CONSTRUCT result up to the names of the minted blank nodes (("fb", …) tuples).
+    Minted nodes of one solution only occur together with each other (and with data terms), so the triples that hold
+    minted nodes fall into small connected components (connected through shared minted nodes); each component is put
+    in its minimal spelling over all orders of its (few) minted nodes, the components are sorted as a multiset and
+    numbered in that order.  Exact for components with up to 6 minted nodes (a template has at most 2 labels)."""
     triples = set(triples)
-    fresh = sorted({x for t in triples for x in t if x[0] == "fb"})
-    sig = {f: tuple(sorted(_fresh_sig(t, f) for t in triples if f in t)) for f in fresh}
-    order = sorted(fresh, key=lambda f: (sig[f], f))
-    name = {f: i for i, f in enumerate(order)}
-    # nodes with equal signature are interchangeable: number them within the class, the SET of lines is the same
-    lines = sorted(" ".join(f"f{name[x]}" if x[0] == "fb" else term_code(x) for x in t) for t in triples)
-    # make equal-signature classes order-independent: rename by rank of signature + multiplicity index
-    return " | ".join(lines)
+    ground = sorted(" ".join(term_code(x) for x in t) for t in triples if not any(x[0] == "fb" for x in t))
+    ft = [t for t in triples if any(x[0] == "fb" for x in t)]
+    parent = {}
+
+    def find(x):
+        while parent.setdefault(x, x) != x:
+            parent[x] = parent[parent[x]]
+            x = parent[x]
+        return x
+    for t in ft:
+        fs = [x for x in t if x[0] == "fb"]
+        for y in fs[1:]:
+            parent[find(fs[0])] = find(y)
+    comps = {}
+    for t in ft:
+        comps.setdefault(find(next(x for x in t if x[0] == "fb")), []).append(t)
+    spelled = []
+    for ts in comps.values():
+        nodes = sorted({x for t in ts for x in t if x[0] == "fb"})
+        orders = itertools.permutations(nodes) if len(nodes) <= 6 else [tuple(nodes)]
+        best = None
+        for o in orders:
+            nm = {f: i for i, f in enumerate(o)}
+            sp = tuple(sorted(tuple(("_", nm[x]) if x[0] == "fb" else ("t", term_code(x)) for x in t) for t in ts))
+            if best is None or sp < best:
+                best = sp
+        spelled.append((best, len(nodes)))
+    spelled.sort()
+    lines, base = list(ground), 0
+    for sp, k in spelled:
+        for t in sp:
+            lines.append(" ".join(f"f{base + x[1]}" if x[0] == "_" else x[1] for x in t))
+        base += k
+    return " | ".join(sorted(lines))
 
 
 def canon_result(res):
@@ -1243,10 +1268,13 @@ def gen_query(rng, ds, depth=3, forms=("select", "select", "select", "ask", "con
                     return rng.choice(g.nodes)
                 return rng.choice(g.consts)
             tp = [pos("s"), pos("p"), pos("o")]
-            if rng.random() < 0.3:
-                lab = ["tb", rng.randint(0, 1)]
-                i = rng.choice([0, 2])
-                tp[i] = lab
+            x = rng.random()
+            if x < 0.3:
+                tp[rng.choice([0, 2])] = ["tb", rng.randint(0, 1)]
+            elif x < 0.42:
+                # two template blank nodes in one triple (the same one twice, or two different ones)
+                tp[0] = ["tb", rng.randint(0, 1)]
+                tp[2] = ["tb", rng.randint(0, 1)]
             tpl.append(tp)
         q["template"] = tpl
     return q
